@@ -176,13 +176,9 @@ def check(case, env):
 
 # ---------------------------------------------------------------- sweep: every key x pools (main process)
 
-def extra(env, tier, seed, sizes):
-    _setup_registry(env)
-    r = env.runner(timeout=10.0, max_alloc_mb=256)
-    out = dict(evaluations=0, nontrivial=[], labels={}, violations=[], samples=[], info={})
-    cap = 4 if tier == "quick" else 10 ** 6
+def _todo(keys, dummy, cap):
     todo = []
-    for k in env.cache["keys"]:
+    for k in keys:
         if k[0] == "n":
             todo.append(dict(key=k, args=[]))
         elif k[0] == "u":
@@ -192,41 +188,74 @@ def extra(env, tier, seed, sizes):
             for a in _pool(k[2])[:cap]:
                 for b in _pool(k[3])[:cap]:
                     todo.append(dict(key=k, args=[a, b]))
-    for k in env.cache["dummy"]:
+    for k in dummy:
         if k[0] == "n":
             todo.append(dict(key=k, args=[]))
         elif k[0] == "u":
             todo.append(dict(key=k, args=[_pool(k[2])[0]]))
         else:
             todo.append(dict(key=k, args=[_pool(k[2])[0], _pool(k[3])[0]]))
+    return todo
+
+
+def _sweep_shard(shard):
+    """runs in a pool process: own runner; VMs are reused for 40 calls, any problem is re-judged on a fresh VM"""
+    from engine.runner import Runner
+
+    class _E:            # minimal stand-in for on_crash
+        pass
+    r = Runner("asan", timeout=10.0, max_alloc_mb=256)
+    r.start()
+    out = dict(evaluations=0, nontrivial=[], violations=[])
     n_since_fresh = 10 ** 9
-    seen_sigs = set()
-    for case in todo:
-        # VMs are reused for 40 calls; any problem is re-judged on a fresh VM (what check() does) before it counts
-        fresh = n_since_fresh >= 40
-        try:
-            rep = run_case(r, case, fresh=fresh)
-            n_since_fresh = 1 if fresh else n_since_fresh + 1
-            v = judge(case, rep)
-            if rep.get("exit_code") is not None or rep.get("state") not in ("empty", None):
-                n_since_fresh = 10 ** 9
-        except RunnerCrash as rc:
-            v = on_crash(case, env, rc).violation
-            n_since_fresh = 10 ** 9
-        out["evaluations"] += 1
-        if v is not None and not fresh:
+    try:
+        for case in shard:
+            fresh = n_since_fresh >= 40
             try:
-                rep = run_case(r, case, fresh=True)
-                v = judge(case, rep)
+                rep = run_case(r, case, fresh=fresh)
+                n_since_fresh = 1 if fresh else n_since_fresh + 1
+                v = judge(case, rep) if rep.get("ok") is not False else None
+                if rep.get("exit_code") is not None or rep.get("state") not in ("empty", None):
+                    n_since_fresh = 10 ** 9
             except RunnerCrash as rc:
-                v = on_crash(case, env, rc).violation
-            n_since_fresh = 10 ** 9
-        if v is not None and v["sig"] not in seen_sigs:
-            seen_sigs.add(v["sig"])
-            out["violations"].append(dict(case=case, sig=v["sig"], msg=v["msg"]))
-        types = case["key"][2:] if case["key"][0] != "n" else []
-        if any(not _ordinary(t, e) for t, e in zip(types, case["args"])):
-            out["nontrivial"].append(hashlib.sha1(json.dumps([case["key"], case["args"]]).encode()).hexdigest())
+                v = on_crash(case, None, rc).violation
+                n_since_fresh = 10 ** 9
+            out["evaluations"] += 1
+            if v is not None and not fresh:
+                try:
+                    rep = run_case(r, case, fresh=True)
+                    v = judge(case, rep)
+                except RunnerCrash as rc:
+                    v = on_crash(case, None, rc).violation
+                n_since_fresh = 10 ** 9
+            if v is not None:
+                out["violations"].append(dict(case=case, sig=v["sig"], msg=v["msg"]))
+            types = case["key"][2:] if case["key"][0] != "n" else []
+            if any(not _ordinary(t, e) for t, e in zip(types, case["args"])):
+                out["nontrivial"].append(hashlib.sha1(json.dumps([case["key"], case["args"]]).encode()).hexdigest())
+    finally:
+        r.close()
+    return out
+
+
+def extra(env, tier, seed, sizes):
+    import multiprocessing
+    _setup_registry(env)
+    out = dict(evaluations=0, nontrivial=[], labels={}, violations=[], samples=[], info={})
+    cap = 4 if tier == "quick" else 10 ** 6
+    todo = _todo(env.cache["keys"], env.cache["dummy"], cap)
+    nproc = sizes.get("workers", 16)
+    shards = [todo[i::nproc] for i in range(nproc)]
+    with multiprocessing.get_context("fork").Pool(nproc) as pool:
+        results = pool.map(_sweep_shard, shards)
+    seen = set()
+    for res in results:
+        out["evaluations"] += res["evaluations"]
+        out["nontrivial"].extend(res["nontrivial"])
+        for v in res["violations"]:
+            if v["sig"] not in seen:
+                seen.add(v["sig"])
+                out["violations"].append(v)
     out["labels"]["sweep_calls"] = out["evaluations"]
     out["info"] = dict(sweep=dict(implemented_keys=len(env.cache["keys"]), dummy_keys=len(env.cache["dummy"]), calls=out["evaluations"],
                                   pool_cap_per_argument=(cap if tier == "quick" else "full"), exhaustive_over_stated_pools=(tier != "quick")),
